@@ -1065,6 +1065,21 @@ class DenseHistory(History):
         for shape, op in D10_TEXT_OPS:
             data = list(range(1, numel(shape) + 1))
             out.append({"cls": "dense", "start": {"shape": shape, "data": data}, "ops": [op]})
+        # the first assignment to the empty tensor, however the empty tensor was built, through every kind of key that can
+        # create modes (open slice first / last / alone, bounded slice, integers, index list, subscripts), then read back
+        A = [None, None, None]
+        firsts = [[{"slice": A}, {"int": 1}], [{"slice": A}], [{"int": 1}, {"slice": A}], [{"int": 1}, {"int": 2}],
+                  [{"slice": [None, 2, None]}, {"slice": A}], [{"list": [0, 2]}, {"slice": A}, {"int": 0}],
+                  [{"slice": A}, {"slice": A}]]
+        for form in (None, "array", "tenzeros"):
+            start = {"shape": [], "data": [], **({"form": form} if form else {})}
+            for parts in firsts:
+                w = {"op": "write", "key": {"k": "region", "parts": parts}, "rhs": {"r": "scalar", "v": 3}}
+                r = {"op": "read", "key": {"k": "region", "parts": [{"slice": A} for _ in parts]}}
+                out.append({"cls": "dense", "start": dict(start), "ops": [w, r]})
+            out.append({"cls": "dense", "start": dict(start),
+                        "ops": [{"op": "write", "key": {"k": "subs", "rows": [[1, 2], [0, 0]]}, "rhs": {"r": "col", "v": [5, -1]}},
+                                {"op": "read", "key": {"k": "lin", "i": 5}}]})
         return out
 
 
@@ -1083,7 +1098,27 @@ class SparseHistory(History):
                 # ... and of "an index list spelled as a NumPy array of two or more entries in a sparse read"
                 {"cls": "sparse", "start": {"shape": [2, 3], "subs": [[0, 0], [1, 0], [0, 1], [1, 1], [0, 2], [1, 2]],
                                             "vals": [1, 4, 2, 5, 3, 6]},
-                 "ops": [{"op": "read", "key": {"k": "region", "parts": [{"int": 1}, {"list": [0, 2], "f": "array"}]}}]}]
+                 "ops": [{"op": "read", "key": {"k": "region", "parts": [{"int": 1}, {"list": [0, 2], "f": "array"}]}}]}
+                ] + self.value_spellings()
+
+    @staticmethod
+    def value_spellings():
+        """every spelling of "one value per subscript" assigned to a tensor without entries, to one with entries
+        elsewhere and to one holding the addressed entries (refused or stored as a column), then read back by `extract`
+        (2-d and 1-d argument) and by subscripts"""
+        out = []
+        rows = [[0, 0], [1, 1]]
+        starts = [{"shape": [2, 2], "subs": [], "vals": []}, {"shape": [2, 2], "subs": [[1, 0]], "vals": [4]},
+                  {"shape": [2, 2], "subs": [[1, 1], [0, 0]], "vals": [4, -3]}]
+        for st in starts:
+            for form in (None, "1d", "list", "row", "column"):
+                w = {"op": "write", "key": {"k": "subs", "rows": rows},
+                     "rhs": {"r": "col", "v": [1, 2], **({"form": form} if form else {})}}
+                out.append({"cls": "sparse", "start": dict(st), "ops": [
+                    w, {"op": "read", "key": {"k": "subs", "rows": rows, "call": "extract"}},
+                    {"op": "read", "key": {"k": "subs", "rows": [[1, 1]], "call": "extract", "form": "vec1d"}},
+                    {"op": "read", "key": {"k": "subs", "rows": [[1, 1], [1, 0]]}}]})
+        return out
 
 
 class PairedHistory(Family):
